@@ -1396,6 +1396,35 @@ impl<RW: QueueRW<T>, T> Stream for &FutInnerRecv<RW, T> {""")]),
             let ref_cell = &*self.refs.offset(ctail_attempt.get().0);
             loop {"""), E(MQ, """                let ref_cell = &*self.refs.offset(ctail);
                 if !is_single {""", """                if !is_single {""")]),
+    V('try-send-allocates-in-rescan', 'C18', ['P14'], [E(MQ, """        let max_diff_from_head = self.tail.get_max_diff(count).expect(
+            "The write head got ran over by consumers in single writer mode. This \\
+             process is borked!",
+        );""", """        let max_diff_from_head = self.tail.get_max_diff(count).expect(&format!(
+            "The write head (at {} of {}) got ran over by consumers in single writer mode. This \\
+             process is borked!",
+            count, self.capacity
+        ));""")]),
+    V('streamlist-capacity-inherited', 'C17', ['P13f'], [E(RC, """        let mut new_readers = self.readers.clone();
+        new_readers.push(new_pos as *const ReaderPos);""", """        let mut new_readers = Vec::with_capacity(self.readers.capacity() + 1);
+        new_readers.extend_from_slice(&self.readers);
+        new_readers.push(new_pos as *const ReaderPos);"""), E(RC, """        let mut new_readers = self.readers.clone();
+        new_readers.retain(|pt| *pt != reader);""", """        let mut new_readers = Vec::with_capacity(self.readers.capacity());
+        new_readers.extend(self.readers.iter().filter(|pt| **pt != reader));""")]),
+    V('rf-streamlist-sized-by-len', None, [], [E(RC, """        let mut new_readers = self.readers.clone();
+        new_readers.push(new_pos as *const ReaderPos);""", """        let mut new_readers = Vec::with_capacity(self.readers.len() + 1);
+        new_readers.extend_from_slice(&self.readers);
+        new_readers.push(new_pos as *const ReaderPos);""")], kind='refactor'),
+    V('drop-recv-skips-unsubscribe-when-panicking', 'C11', ['P9a'], [E(MQ, """impl<RW: QueueRW<T>, T> Drop for InnerRecv<RW, T> {
+    fn drop(&mut self) {
+        unsafe { self.do_unsubscribe_with(|| ()) }
+    }
+}""", """impl<RW: QueueRW<T>, T> Drop for InnerRecv<RW, T> {
+    fn drop(&mut self) {
+        if !::std::thread::panicking() {
+            unsafe { self.do_unsubscribe_with(|| ()) }
+        }
+    }
+}""")]),
 ]
 
 # behaviour-preserving patches written by independent sub-agents (tools/eval_refactors.sh, DESIGN 12.9): every check
